@@ -4,7 +4,7 @@ from common import *  # noqa: F401,F403
 RULE = ("random curves (Bezier, multi-span, repeated knots, rational; degree 0..3, t in 1..3): degree_increase(t) and the degree setter; "
         "elevate-then-reduce round trips; reduction of generic curves (refused with the default tolerance, forced with tolerance=None); "
         "invalid arguments.  Non-trivial: an interior knot or degree >= 2; distinct = distinct (U,P,W,t,mode)."
-        " Also: reductions by two (partly reducible curves, vanishing double knots), multi-span elevation to final degree 7..10, float twin first; control points far from the origin (1e3..1e6) with a moderate defect.")
+        " Also: reductions by two (partly reducible curves, vanishing double knots), multi-span elevation to final degree 7..10, float twin first; control points far from the origin (1e3..1e6) with a moderate defect. Also: in every second case a sibling curve built on the same KnotVector object, which must be left as it was.")
 EXPLANATION = ("L2: state after elevation / reduction vs the model (split + Bezier elevation + least-squares removal, exact); L3: `rf.eq` "
                "before/after, knot pattern (every distinct knot +t), atomic refusal, interpolation at the remaining knots for forced reduction.")
 ASSUMPTIONS = ["weights positive"]
@@ -21,6 +21,19 @@ def run_case(ctx, case):
     rec.count("weights", "rational" if W is not None else "polynomial")
     curve = make_curve(U, P, W)
     start = curve_state(curve)
+    # a second curve on the very KnotVector object of the first (x(u) and y(u) of one figure): changing the degree of one curve
+    # must leave the other — a curve like any other — as it was
+    sib = Curve(curve.knotvector, curve.ctrlpoints, curve.weights) if rec.evaluations % 2 == 0 else None
+
+    def sibling_intact(what):
+        if sib is None:
+            return True
+        rec.count("sibling", what)
+        ok = curve_state(sib) == start and impl(lambda: sib((U[0] + U[-1]) / 2))[0] == "ok"
+        if not ok:
+            rec.violation("%s of a curve changed another curve built on the same KnotVector object" % what, case,
+                          sibling=ser(curve_state(sib)), expected=ser(start))
+        return ok
     if mode in ("elevate", "setter", "roundtrip"):
         impl(lambda: float_twin(U, P, W).degree_increase(t))       # float data first (cross-call caches)
         for tw in mixed_twins(U, P, W):
@@ -50,6 +63,8 @@ def run_case(ctx, case):
             return
         if has_float(curve.ctrlpoints) or has_float(curve.weights):
             rec.violation("float introduced for exact data", case)
+        if not sibling_intact("degree elevation"):
+            return
         unit_matrix(rec, drv, case, "ops.elev", lambda: heavy.Operations.degree_increase(tuple(U), t), "ops.elev", list(U), t)
         if mode == "roundtrip":
             r = impl(lambda: curve.degree_decrease(t))
@@ -61,6 +76,7 @@ def run_case(ctx, case):
                 rec.violation("reduction refused although the curve is representable at the lower degree", case, observed=r[1])
             elif back != start:
                 rec.violation("elevate-then-reduce did not restore the curve", case, observed=ser(back), expected=ser(start))
+            sibling_intact("degree reduction")
         return
     if mode in ("reduce", "forced"):
         tol = F(1, 10**9) if mode == "reduce" else None
@@ -70,6 +86,8 @@ def run_case(ctx, case):
         same = errkind(r) == errkind(m) and (r[0] != "ok" or model_curve_state(m[1]) == after)
         l2(rec, "curve.degdec", case, (errkind(r), after), m, same)
         rec.count("outcome", errkind(r))
+        if not sibling_intact("degree reduction"):
+            return
         if r[0] != "ok":
             if after != start:
                 rec.violation("refused reduction modified the curve", case, before=ser(start), after=ser(after))
